@@ -580,10 +580,10 @@ func runC10(env *mc.Env) {
 				}
 				for _, kind := range c10Kinds {
 					// body variants: the full cross for graphs on <= 2 interfaces and in the thorough tier;
-					// in the quick tier a 3-interface program gets the plain body and one rotating variant
+					// in the quick tier a 3-interface program gets one variant, rotating over all six
 					bodies := []int{0, 1, 2, 3, 4, 5}
 					if !env.Thorough() && sh.N == 3 {
-						bodies = []int{0, 1 + len(progs)%5}
+						bodies = []int{len(progs) % 6}
 					}
 					for _, b := range bodies {
 						progs = append(progs, &c10Case{Shape: sh.Name, Variants: vs, Comp: comp, Kind: kind, Body: b})
